@@ -22,7 +22,11 @@ if build(['opusmodel']) != 0:
 allmods = []
 for pid in open(os.path.join(here, 'props', 'ENABLED')).read().split():
     try:
-        allmods.append((pid, importlib.import_module('props.' + pid).LEAN_MODULES))
+        m = importlib.import_module('props.' + pid)
+        mods = list(m.LEAN_MODULES)
+        for e in getattr(m, 'EXTENSIONS', []):      # extension slices (tools/EXT_BRIEF.md)
+            mods += [x for x in importlib.import_module('props.' + e).LEAN_MODULES if x not in mods]
+        allmods.append((pid, mods))
     except Exception as e:       # a broken props module must not stop the others either
         failed.append('%s (tools/props: %s)' % (pid, e))
 # one invocation for everything is fastest; fall back to per-property builds when it fails
